@@ -163,4 +163,16 @@ CLAIMS["C15"] = {
     "technique": "exception-flow abstract interpretation (count lattice {0,1,2+}) over a fanned-out call graph + CFG dominance (AST)",
 }
 
+CLAIMS["C10"] = {
+    "text": "Decides that coordinate conversion has the forms its definition requires (offsets = cumulative sizes; local >= size rejected; chromosome of a global position by "
+            "searchsorted(side='right') - 1; interval starts/stops bounds-checked and shifted by their own chromosome's offset), that values in concatenated coordinates never flow into "
+            "boundary-sensitive operations (merge / extend / clip / sort; Geometry.merge_intervals does: recorded finding) while the in-memory merged() goes chromosome by chromosome, that every "
+            "clamp in clip / extended_to_size / get_windows takes its size from the per-chromosome lookup of the intervals' own chromosome column, that strand selectors put the forward value on "
+            "'+', that every name and self-attribute used in the genomic-data modules (about 300 functions) resolves (three unresolved uses: recorded findings), that sequence extraction looks "
+            "index rows up in label order, and - shared with C12 - that the walked contig order equals the contigs with sizes and derived contexts union their ignored sets.",
+    "note": _NOTE + "Known findings: Geometry.merge_intervals across chromosome ends, StreamedGeometry.extend_to_size NameError, GenomicData.__getitem__ undefined attributes. "
+                    "Not decided: equality with the single-contig operation on concrete data.",
+    "technique": "taint (global-coordinate) dataflow + normal forms of conversion formulas + name/attribute resolution over the class hierarchy (AST, CFG)",
+}
+
 NOT_APPLICABLE = {}
